@@ -61,6 +61,31 @@ func (w *faultWriter) Write(p []byte) (int, error) {
 	return room, w.firstErr
 }
 
+// quietShortWriter takes everything up to its limit, takes only the part of
+// the overflowing chunk that fits, returns (n < len(p), nil) for it, and takes
+// everything after that (recorded apart).
+type quietShortWriter struct {
+	limit int
+	got   []byte
+	after []byte
+	short bool
+}
+
+func (w *quietShortWriter) Write(p []byte) (int, error) {
+	if w.short {
+		w.after = append(w.after, p...)
+		return len(p), nil
+	}
+	room := w.limit - len(w.got)
+	if len(p) <= room {
+		w.got = append(w.got, p...)
+		return len(p), nil
+	}
+	w.got = append(w.got, p[:room]...)
+	w.short = true
+	return room, nil
+}
+
 // richWriter is a faultWriter that also offers the optional methods real
 // destinations have (*os.File, *bufio.Writer, *bytes.Buffer: WriteString;
 // bufio/bytes: WriteByte; *os.File: ReadFrom), each with the same byte budget.
@@ -113,7 +138,7 @@ func init() {
 		Level: "fault_enumeration",
 		Rule: "every module of the corpus (atoms, repo testdata, llvm-stress programs in thorough) is written with WriteTo to a writer that fails after exactly k accepted bytes, " +
 			"for every k in [0,len] (all offsets when len<=6000, else 400 PRNG offsets plus boundaries), once with a sentinel error, once with io.ErrShortWrite, and once with a writer whose failing call accepts its whole chunk and returns (len(p), err); the corpus includes a synthetic module with a function body of more than 64 KiB; " +
-			"Real destinations: /dev/full, a pipe whose reader goes away after 0, 1 or half of the bytes, a closed file and a regular file, through an *os.File wrapper that records what the descriptor accepted and its first error: count, error identity and no write after the failure. Kind stringwriter: the failing writer also has WriteString, WriteByte and ReadFrom (as *os.File, *bufio.Writer, *bytes.Buffer have), all on the same byte budget, at every offset. Failure kinds also include the errors of real destinations at 25 offsets per module (io.ErrClosedPipe, EPIPE bare and in *os.PathError, io.EOF, os.ErrClosed, ENOSPC, errors with Temporary()/Timeout() methods, EAGAIN, EINTR, errors of an uncomparable dynamic type: a slice of messages, a struct holding a slice). First output: a second, never-printed parse of every input, and API-built modules whose numbers are still to be assigned (block addresses used from outside the function, metadata definitions with ID -1 attached to a global, a function and an instruction; never printed, or printed and then edited) are written once to a non-failing writer and to writers failing at every offset: what WriteTo wrote is what String() returns afterwards. " +
+			"Real destinations: /dev/full, a pipe whose reader goes away after 0, 1 or half of the bytes, a closed file and a regular file, through an *os.File wrapper that records what the descriptor accepted and its first error: count, error identity and no write after the failure. Kind stringwriter: the failing writer also has WriteString, WriteByte and ReadFrom (as *os.File, *bufio.Writer, *bytes.Buffer have), all on the same byte budget, at every offset. A writer that takes part of a chunk and reports no error (contract-breaking short write) must either get the rest again or stop WriteTo with io.ErrShortWrite, at every offset. Failure kinds also include the errors of real destinations at 25 offsets per module (io.ErrClosedPipe, EPIPE bare and in *os.PathError, io.EOF, os.ErrClosed, ENOSPC, errors with Temporary()/Timeout() methods, EAGAIN, EINTR, errors of an uncomparable dynamic type: a slice of messages, a struct holding a slice). First output: a second, never-printed parse of every input, and API-built modules whose numbers are still to be assigned (block addresses used from outside the function, metadata definitions with ID -1 attached to a global, a function and an instruction; never printed, or printed and then edited) are written once to a non-failing writer and to writers failing at every offset: what WriteTo wrote is what String() returns afterwards. " +
 			"a case is (module, k, failure kind); it is non-trivial when 0<k<len, i.e. the failure hits in the middle of the output; distinct = distinct (module digest, k, kind)",
 		Gen:           genC19,
 		MinNontrivial: 1000,
@@ -411,6 +436,38 @@ func runC19(r *fw.Rec, s corpus.Source) {
 			}
 		}
 	}
+	// a writer that takes fewer bytes than it was given and reports no error (it
+	// breaks the io.Writer contract; io.Copy, bufio and bytes.Buffer.WriteTo answer
+	// it with io.ErrShortWrite): either the rest is written again, so that
+	// everything arrives, or the write stops there with io.ErrShortWrite; bytes may
+	// not go missing in the middle of what the writer received
+	for _, k := range offs {
+		if k >= L {
+			continue
+		}
+		w := &quietShortWriter{limit: k}
+		var n int64
+		var werr error
+		if p, msg, _ := fw.Guard(func() { n, werr = m.WriteTo(w) }); p {
+			r.Violatef(fmt.Sprintf("writeto-panic/%s/short-without-error/k=%d", s.ID, k), text, "WriteTo panicked with a writer that takes only %d bytes of one chunk without an error: %s", k, msg)
+			return
+		}
+		r.Eval(1)
+		all := string(w.got) + string(w.after)
+		switch {
+		case werr == nil && all == T && n == int64(L):
+			// the library wrote the rest again
+		case errors.Is(werr, io.ErrShortWrite) && len(w.after) == 0 && string(w.got) == T[:len(w.got)] && n == int64(len(w.got)):
+			// stopped at the short write
+		default:
+			r.Violate(fw.Violation{Key: "faulty-writer/short-without-error/" + s.ID, Input: text,
+				What:     fmt.Sprintf("a writer that takes only part of one chunk (up to byte %d of %d) without returning an error: WriteTo returned n=%d err=%v, the writer received %d bytes before and %d bytes after the short write, and what it received is a prefix of String(): %v", k, L, n, werr, len(w.got), len(w.after), strings.HasPrefix(T, all)),
+				Expected: "either all of String() (the rest written again) or a stop at the short write with io.ErrShortWrite",
+				Observed: fw.Trunc(all, 400)})
+			return
+		}
+	}
+	r.TallyN("offsets", "short-write-without-error", len(offs))
 	r.NontrivialN("c19/"+dig, nontriv*1)
 	r.Tally("modules", "checked")
 	r.TallyN("offsets", "checked", 4*len(offs)+12*min(len(offs), 25))
